@@ -92,19 +92,21 @@ ConnPart(ad, defs) ==
     IN PSumFrom(f, 1, Len(ad.conns), PZero(size))
 
 (* requests: [q |-> "size"], "k0", "kM", [q |-> "kG0", N |-> <<per panel <<Nxx,Nyy,Nxy>> >>],
-   [q |-> "fext", forces, forcesInc (per panel lists), inc], [q |-> "fint"|"kT", c] (global state),
+   [q |-> "fext", forces, forcesInc (per panel lists), inc], [q |-> "fint"|"kT"|"kGc", c] (global state),
    [q |-> "fint_part", k, c]: the placed internal-force contribution of panel k alone *)
-IsMatQ(q) == q \in {"k0", "kG0", "kM", "kT"}
+IsMatQ(q) == q \in {"k0", "kG0", "kM", "kT", "kGc"}
 PanelMat(d, k, r, cs, dev) ==
     CASE r.q = "k0"  -> K0(d)
       [] r.q = "kG0" -> KG0(d, r.N[k])
       [] r.q = "kM"  -> KM(d, dev)
       [] r.q = "kT"  -> KT(d, cs)
+      (* geometric stiffness from a state: the membrane resultants of the panel's own slice, LINEAR strains *)
+      [] r.q = "kGc" -> KGState(d, cs, FALSE)
 AsmMatrix(ad, r, dev) ==
     LET size == AsmSize(ad)
         defs == AsmDefs(ad)
         offs == AsmOffs(ad)
-        f(k) == PlaceSegs(PanelMat(defs[k], k, r, IF r.q = "kT" THEN Slice(r.c, offs[k], Size(defs[k])) ELSE <<>>, dev),
+        f(k) == PlaceSegs(PanelMat(defs[k], k, r, IF r.q \in {"kT", "kGc"} THEN Slice(r.c, offs[k], Size(defs[k])) ELSE <<>>, dev),
                           size, AsmSegs(ad, k))
         panels == PSumFrom(f, 1, Len(ad.pds), PZero(size))
     IN IF r.q \in {"k0", "kT"} /\ Len(ad.conns) > 0 THEN PAddM(panels, ConnPart(ad, defs)) ELSE panels
@@ -536,6 +538,13 @@ AsmAtRest == (Evald /\ IsAsm /\ areq.q = "kT") =>
     LET z == Fn([k \in 1..AsmSize(adef) |-> RZero])
     IN /\ Vals(AsmMatrix(adef, [q |-> "kT", c |-> z], ADeviations)) = Vals(AsmMatrix(adef, [q |-> "k0"], ADeviations))
        /\ \A k \in 1..AsmSize(adef) : RIsZero(AsmVector(adef, [q |-> "fint", c |-> z], ADeviations)[k][1])
+(* geometric stiffness from a state: the resultants come from the LINEAR strains, so the matrix is homogeneous of
+   degree 1 in the state, touches out-of-plane amplitudes only and never couples panels *)
+GeoStateLinear == (Evald /\ IsAsm /\ areq.q = "kGc") =>
+    /\ Vals(AsmMatrix(adef, [q |-> "kGc", c |-> Fn([k \in 1..Len(areq.c) |-> RMul(Two, areq.c[k])])], ADeviations)) = MScale(Two, AVals)
+    /\ \A i \in 1..Len(aout), j \in 1..Len(aout) :
+          LET a == OwnerOf(adef, i)   b == OwnerOf(adef, j)
+          IN (a # b \/ DofOf(AsmDefs(adef)[a], i - AsmOffs(adef)[a]) # W \/ DofOf(AsmDefs(adef)[b], j - AsmOffs(adef)[b]) # W) => aout[i][j] = PairZero
 (* the connection force is K_conn c: it vanishes with the state of the joined panels and only loads them *)
 FintConnLocal == (Evald /\ IsAsm /\ areq.q = "fint" /\ Len(adef.conns) > 0) =>
     LET defs == AsmDefs(adef)
